@@ -173,7 +173,7 @@ pub fn gen_c01(seed: u64, thorough: bool, only: Option<u64>, out: &mut Out) {
     gen_reuse(seed, thorough, out);
   }
   let groups: u64 = if thorough { 400 } else { 36 };
-  let ts: &[u32] = if thorough { &[1, 2, 3, 4, 5, 8, 16, 33, 64] } else { &[1, 2, 3, 5, 8] };
+  let ts: &[u32] = if thorough { &[1, 2, 3, 4, 5, 8, 16, 32, 33, 64, 96] } else { &[1, 2, 3, 5, 8, 32] };
   for gi in 0..groups {
     if only.map_or(false, |o| o != gi) {
       continue;
@@ -368,6 +368,7 @@ fn gen_c02_high(seed: u64, thorough: bool, out: &mut Out) {
 pub fn gen_c02(seed: u64, thorough: bool, only: Option<u64>, out: &mut Out) {
   if only.is_none() {
     gen_c02_high(seed, thorough, out);
+    gen_reuse(seed ^ 0x2, thorough, out);
   }
   let groups: u64 = if thorough { 200 } else { 24 };
   let ts: &[u32] = if thorough { &[2, 3, 4, 5, 6, 8, 16, 40, 64] } else { &[2, 3, 4, 5, 8] };
@@ -678,6 +679,15 @@ pub fn gen_c03(seed: u64, thorough: bool, only: Option<u64>, out: &mut Out) {
       if pts.len() == t as usize && distinct_x && same {
         let cs = interpolate_coeffs(&pts);
         let k = crate::g_fp::bytes_of(&cs[cs.len() - 1]);
+        // fewer than t points must not determine the key: the polynomial through the first s < t points does not
+        // pass through it (it would if the sharing polynomial had a lower degree than t - 1)
+        for sub in 1..t as usize {
+          let cs2 = interpolate_coeffs(&pts[..sub]);
+          if crate::g_fp::bytes_of(&cs2[cs2.len() - 1]) == k {
+            v = Err(format!("threshold {}: {} shares already determine the sharing key (the sharing polynomial has too low a degree), so a group below the threshold can be opened", t, sub));
+            break;
+          }
+        }
         for (i, w) in g.wire.iter().enumerate() {
           if contains(w, &k[..16]) {
             v = Err(format!("threshold {}: the sharing key occurs in the clear in report {} (the payload can be opened with a value the report carries)", t, i));
@@ -730,6 +740,30 @@ fn gen_c03_cross(seed: u64, thorough: bool, out: &mut Out) {
     }
     let (obs_b, _, _) = server_side(&gb.e, &gb.wire, &[0]);
     out.case(scn_case(&gb, &[0]), format!("wire={} {}", gb.wire.iter().map(|b| hex(b)).collect::<Vec<_>>().join(","), obs_b), v);
+    // the same measurement under two epochs that are not text and differ in one byte: one report each (threshold 2)
+    // must not pool
+    if gi % 3 == 0 {
+      let (e1, e2) = (vec![0x80u8, gi as u8], vec![0x81u8, gi as u8]);
+      let (x1, x2) = (r.bytes(9), r.bytes(9));
+      let g1 = make_group(&mut r, ma.clone(), e1.clone(), 2, true, vec![Some(x1)]);
+      let g2 = make_group(&mut r, ma.clone(), e2.clone(), 2, true, vec![Some(x2)]);
+      if let (Some(g1), Some(g2)) = (g1, g2) {
+        let pooled = vec![g1.wire[0].clone(), g2.wire[0].clone()];
+        let (obs_p, m0, _) = server_side(&e1, &pooled, &[0, 1]);
+        let mut v = Ok(());
+        if split_message(&g1.wire[0]).map(|x| x.2) == split_message(&g2.wire[0]).map(|x| x.2) {
+          v = Err(format!("one measurement under the epochs {} and {} has the same tag", hex(&e1), hex(&e2)));
+        }
+        if m0.is_some() {
+          v = Err(format!("one report under epoch {} and one under epoch {} (threshold 2) pool and open", hex(&e1), hex(&e2)));
+        }
+        let (obs1, _, _) = server_side(&e1, &g1.wire, &[0]);
+        out.case(scn_case(&g1, &[0]), format!("wire={} {}", g1.wire.iter().map(|b| hex(b)).collect::<Vec<_>>().join(","), obs1), v);
+        let _ = obs_p;
+        let (obs2, _, _) = server_side(&e2, &g2.wire, &[0]);
+        out.case(scn_case(&g2, &[0]), format!("wire={} {}", g2.wire.iter().map(|b| hex(b)).collect::<Vec<_>>().join(","), obs2), Ok(()));
+      }
+    }
   }
 }
 
